@@ -50,6 +50,20 @@ def run(ctx):
     ]
 
 
+def selftest(ctx):
+    build_harness()
+    ev = ctx.work / "st-macro.ndjson"
+    vh(["c02-events", "seed=5", "n=400", f"out={ev}"])
+    def drop_tok(e):
+        for a in e["obs"]["args"]:
+            if a:
+                a.pop(); return e
+        return None
+    selftest_calls(ctx, "argument-corrupted", "Trace_TexMacro", "Trace_TexMacro.cfg", ev, drop_tok)
+    tlc_expect_refuted("MC_TexMacro", "NEG_TexMacro_Trim.cfg", "trim rule", workers=3)
+    ctx.cov["rule"] = "selftest: corrupted recordings must be rejected, originals accepted, spec mutant refuted"
+
+
 def replay(path):
     r = json.load(open(path))
     print(json.dumps(r, indent=1)[:3000])
